@@ -1,1 +1,91 @@
-fn main(){}
+//! vcheck: property-based checks of gneiss-mqtt.  `vcheck <Cxx> [--tier quick|thorough] [--seed N] [--replay file]`
+#![allow(dead_code, unused_variables, clippy::all)]
+
+mod gen;
+mod model;
+mod mon;
+mod panichook;
+mod props_engine;
+mod runner;
+mod sim;
+
+use runner::{run_property, RunOptions, Tier};
+
+fn usage() -> ! {
+    eprintln!("usage: vcheck <C01..C20> [--tier quick|thorough] [--seed N] [--replay path] [--shards N] [--cases N] [--strict] [--root /verif]");
+    std::process::exit(2);
+}
+
+fn main() {
+    panichook::install();
+    let args: Vec<String> = std::env::args().collect();
+    if args.len() < 2 {
+        usage();
+    }
+    let id = args[1].clone();
+    let mut tier = match std::env::var("VERIF_TIER").ok().as_deref() {
+        Some("thorough") => Tier::Thorough,
+        _ => Tier::Quick,
+    };
+    let mut seed: u64 = std::env::var("VERIF_SEED").ok().and_then(|s| s.parse::<i128>().ok()).map(|v| v as u64).unwrap_or(20260923);
+    let mut replay = None;
+    let mut shards = std::thread::available_parallelism().map(|n| n.get()).unwrap_or(8).min(16);
+    let mut cases_override = None;
+    let mut strict = false;
+    let mut root = "/verif".to_string();
+    let mut i = 2;
+    while i < args.len() {
+        match args[i].as_str() {
+            "--tier" => {
+                i += 1;
+                tier = match args.get(i).map(|s| s.as_str()) {
+                    Some("thorough") => Tier::Thorough,
+                    Some("quick") => Tier::Quick,
+                    _ => usage(),
+                };
+            }
+            "--seed" => {
+                i += 1;
+                seed = args.get(i).and_then(|s| s.parse::<i128>().ok()).map(|v| v as u64).unwrap_or_else(|| usage());
+            }
+            "--replay" => {
+                i += 1;
+                replay = Some(args.get(i).cloned().unwrap_or_else(|| usage()));
+            }
+            "--shards" => {
+                i += 1;
+                shards = args.get(i).and_then(|s| s.parse().ok()).unwrap_or_else(|| usage());
+            }
+            "--cases" => {
+                i += 1;
+                cases_override = Some(args.get(i).and_then(|s| s.parse().ok()).unwrap_or_else(|| usage()));
+            }
+            "--strict" => strict = true,
+            "--root" => {
+                i += 1;
+                root = args.get(i).cloned().unwrap_or_else(|| usage());
+            }
+            _ => usage(),
+        }
+        i += 1;
+    }
+    let opts = RunOptions { tier, seed, shards, verif_root: root, replay, cases_override, strict };
+    let code = match id.as_str() {
+        "C01" => run_property(&props_engine::c01(), &opts),
+        "C04" => run_property(&props_engine::c04(), &opts),
+        "C05" => run_property(&props_engine::c05(), &opts),
+        "C06" => run_property(&props_engine::c06(), &opts),
+        "C07" => run_property(&props_engine::c07(), &opts),
+        "C09" => run_property(&props_engine::c09(), &opts),
+        "C10" => run_property(&props_engine::c10(), &opts),
+        "C11" => run_property(&props_engine::c11(), &opts),
+        "C15" => run_property(&props_engine::c15(), &opts),
+        "C17" => run_property(&props_engine::c17(), &opts),
+        "C18" => run_property(&props_engine::c18(), &opts),
+        _ => {
+            eprintln!("unknown property {}", id);
+            2
+        }
+    };
+    std::process::exit(code);
+}
